@@ -19,7 +19,7 @@ def load_claims():
             out[info["PROP"]] = info["MANIFEST"]
     return out
 # properties whose check has been integrated and verified by the coordinator (exit 0 on the unchanged tree, several seeds)
-ENABLED = ["C04", "C06", "C07", "C08", "C09", "C10", "C11", "C12", "C16", "C17", "C18", "C19", "C20"]
+ENABLED = ["C%02d" % k for k in range(1, 21)]
 CLAIMED = {k: v for k, v in load_claims().items() if k in ENABLED}
 NOT_APPLICABLE = {}
 def main():
